@@ -451,6 +451,9 @@ pub fn random_run(rng: &mut StdRng, n_events: usize) -> RunSpec {
             }
             front[w as usize] = std::cmp::max(f, base - 1);
             acts.push(RAct::Gap { w, start, base, set, nbits: if rng.gen_bool(0.5) { rng.gen_range(1..4) } else { 0 }, dirty: rng.gen_bool(0.5) });
+        } else if r < 76 {
+            // a re-announcement of the matched writer: nothing may change
+            acts.push(RAct::Match { w });
         } else if r < 77 {
             acts.push(RAct::Unmatch { w });
             acts.push(RAct::Match { w });
